@@ -1,5 +1,194 @@
-/- Line-protocol driver for the C18 model (stub until the model exists). -/
+/- Line-protocol driver for the C18 models (ForML.Model.Tag / Keys / Manifest).
+Strings travel as lists of code points. Anything that does not parse is answered `bad-op`. -/
 import ForML.Model.Sexp
+import ForML.Model.Tag
+import ForML.Model.Keys
+import ForML.Model.Manifest
 open ForML
 
-def main : IO Unit := driverLoop (fun _ => .atom "no-model")
+namespace C18Drv
+
+def cps? (x : Sexp) : Option (List Nat) := x.natList?
+def ofCps (s : List Nat) : Sexp := Sexp.ofNats s
+
+def optOf (f : Sexp → Option α) : Sexp → Option (Option α)
+  | .atom "none" => some none
+  | x => (f x).map some
+
+def bool? : Sexp → Option Bool
+  | .atom "true" => some true
+  | .atom "false" => some false
+  | _ => none
+
+/-! tags -/
+open ForML.Tag in
+def ts? : Sexp → Option Ts
+  | .list [y, mo, d, h, mi, s, us, tz] => do
+    pure { y := ← y.nat?, mo := ← mo.nat?, d := ← d.nat?, h := ← h.nat?, mi := ← mi.nat?, s := ← s.nat?,
+           us := ← us.nat?, tz := ← optOf Sexp.int? tz }
+  | _ => none
+
+open ForML.Tag in
+def ordinal? : Sexp → Option Ordinal
+  | .list [.atom "int", i] => i.int?.map .int
+  | .list [.atom "float", b] => b.nat?.map .float
+  | .list [.atom "bool", b] => (bool? b).map .bool
+  | .list [.atom "str", s] => (cps? s).map .str
+  | .list [.atom "date", y, m, d] => do pure (.date (← y.nat?) (← m.nat?) (← d.nat?))
+  | .list [.atom "datetime", t] => (ts? t).map .datetime
+  | .list [.atom "decimal", s, i, b] => do pure (.decimal (← cps? s) (← i.int?) (← b.nat?))
+  | _ => none
+
+open ForML.Tag in
+def num? : Sexp → Option Num
+  | .list [.atom "int", i] => i.int?.map .int
+  | .list [.atom "float", b] => b.nat?.map .float
+  | _ => none
+
+open ForML.Tag in
+def ofTs (t : Ts) : Sexp :=
+  .list [Sexp.ofNat t.y, Sexp.ofNat t.mo, Sexp.ofNat t.d, Sexp.ofNat t.h, Sexp.ofNat t.mi, Sexp.ofNat t.s,
+         Sexp.ofNat t.us, match t.tz with | none => .atom "none" | some z => Sexp.ofInt z]
+
+open ForML.Tag in
+def ofOrdinal : Ordinal → Sexp
+  | .int i => .list [.atom "int", Sexp.ofInt i]
+  | .float b => .list [.atom "float", Sexp.ofNat b]
+  | .bool b => .list [.atom "bool", Sexp.ofBool b]
+  | .str s => .list [.atom "str", ofCps s]
+  | .date y m d => .list [.atom "date", Sexp.ofNat y, Sexp.ofNat m, Sexp.ofNat d]
+  | .datetime t => .list [.atom "datetime", ofTs t]
+  | .decimal s i b => .list [.atom "decimal", ofCps s, Sexp.ofInt i, Sexp.ofNat b]
+
+open ForML.Tag in
+def ofNum : Num → Sexp
+  | .int i => .list [.atom "int", Sexp.ofInt i]
+  | .float b => .list [.atom "float", Sexp.ofNat b]
+
+def ofOpt (f : α → Sexp) : Option α → Sexp
+  | none => .atom "none"
+  | some a => f a
+
+open ForML.Tag in
+def ofTag (t : Tag) : Sexp :=
+  .list [ofOpt ofTs t.trainTs, ofOpt ofOrdinal t.ordinal, ofOpt ofTs t.tuneTs, ofOpt ofNum t.score,
+         Sexp.ofNats t.states]
+
+open ForML.Tag in
+def ofStrErr : StrErr → Sexp
+  | .indexError => .atom "IndexError"
+  | .reserved => .atom "TomlDecodeError"
+  | .outOfModel => .atom "out-of-model"
+  | .notAString => .atom "not-a-string"
+
+open ForML.Tag in
+def ofLoadErr : LoadErr → Sexp
+  | .keyError _ => .atom "KeyError"
+  | .str e => ofStrErr e
+  | .badType _ => .atom "bad-type"
+
+open ForML.Tag in
+def ofLoad : Except LoadErr Tag → Sexp
+  | .ok t => .list [.atom "ok", ofTag t]
+  | .error e => .list [.atom "error", ofLoadErr e]
+
+open ForML.Tag in
+def stepTag (a b c d e : Sexp) : Sexp :=
+  match optOf ts? a, optOf ordinal? b, optOf ts? c, optOf num? d, e.natList? with
+  | some trainTs, some ordinal, some tuneTs, some score, some states =>
+    let t : Tag := { trainTs, ordinal, tuneTs, score, states }
+    match dumps t with
+    | .error err => .list [.atom "error", ofStrErr err]
+    | .ok doc =>
+      let lit := match lookup "ordinal" doc.training with
+        | some (.strLit v) => ofCps v
+        | _ => .atom "none"
+      .list [.atom "ok", .list (doc.training.map (fun kv => .atom kv.1)), .list (doc.tuning.map (fun kv => .atom kv.1)),
+             lit, ofLoad (loads doc), ofLoad (loadsStrict doc)]
+  | _, _, _, _, _ => .atom "bad-op"
+
+/-! keys -/
+open ForML.Keys in
+def seg? : Sexp → Option Seg
+  | .list [.atom "num", n] => n.nat?.map .num
+  | .list [.atom "str", s] => (cps? s).map .str
+  | _ => none
+
+open ForML.Keys in
+def version? : Sexp → Option Version
+  | .list [ep, rel, pre, post, dev, loc] => do
+    let pre ← optOf (fun | .list [k, n] => do pure ((← k.nat?), (← n.nat?)) | _ => none) pre
+    let loc ← optOf (fun | .list segs => segs.mapM seg? | _ => none) loc
+    pure { epoch := ← ep.nat?, release := ← rel.natList?, pre, post := ← optOf Sexp.nat? post,
+           dev := ← optOf Sexp.nat? dev, loc }
+  | _ => none
+
+def ofOrdering : Ordering → Sexp
+  | .lt => .atom "lt"
+  | .eq => .atom "eq"
+  | .gt => .atom "gt"
+
+open ForML.Keys in
+def stepKeys : Sexp → Option Sexp
+  | .list [.atom "genkey", s] => do
+    let s ← cps? s
+    pure (match genKey s with
+      | .ok k => .list [.atom "ok", Sexp.ofNat k, Sexp.ofNat (genNext k)]
+      | .error .notInteger => .list [.atom "error", .atom "not-integer"]
+      | .error .notNatural => .list [.atom "error", .atom "not-natural"])
+  | .list [.atom "natstr", n] => do pure (ofCps (natStr (← n.nat?)))
+  | .list [.atom "listing", xs] => do
+    let xs ← xs.natList?
+    let l := listing natCmp xs
+    pure (.list [Sexp.ofNats l, match last l with | .ok m => Sexp.ofNat m | .error _ => .atom "Empty"])
+  | .list [.atom "vlisting", .list vs] => do
+    let vs ← vs.mapM version?
+    let keyed := (vs.map cmpkey).zip (List.range vs.length)
+    let l := listing (fun a b => cmpKey a.1 b.1) keyed
+    pure (.list [Sexp.ofNats (l.map (·.2)), match last l with | .ok m => Sexp.ofNat m.2 | .error _ => .atom "Empty"])
+  | .list [.atom "vcmp", a, b] => do pure (ofOrdering (vcmp (← version? a) (← version? b)))
+  | .list [.atom "vstr", a] => do pure (ofCps (vstr (← version? a)))
+  | _ => none
+
+/-! manifests and packages -/
+def pair? : Sexp → Option (List Nat × List Nat)
+  | .list [k, v] => do pure ((← cps? k), (← cps? v))
+  | _ => none
+
+open ForML.Manifest in
+partial def node? : Sexp → Option Node
+  | .list [.atom "f", .atom n] => some (.file n)
+  | .list [.atom "d", .atom n, .list cs] => (cs.mapM node?).map (.dir n)
+  | _ => none
+
+open ForML.Manifest in
+def stepManifest : Sexp → Option Sexp
+  | .list [.atom "manifest", n, v, p, .list ms] => do
+    let m : Manifest := { name := ← cps? n, version := ← cps? v, package := ← cps? p, modules := ← ms.mapM pair? }
+    let text := render m
+    let res := match read text with
+      | .ok r => Sexp.list [.atom "ok", ofCps r.name, ofCps r.version, ofCps r.package,
+                            .list (r.modules.map (fun kv => .list [ofCps kv.1, ofCps kv.2]))]
+      | .error .syntax => .list [.atom "error", .atom "syntax"]
+      | .error .outOfModel => .list [.atom "error", .atom "out-of-model"]
+    pure (.list [ofCps text, res])
+  | .list [.atom "package", .list nodes] => do
+    let nodes ← nodes.mapM node?
+    let names := archive nodes
+    pure (.list [.list (names.map .atom), Sexp.ofBool (zipSafe names)])
+  | _ => none
+
+def step (x : Sexp) : Sexp :=
+  match x with
+  | .list [.atom "tag", a, b, c, d, e] => stepTag a b c d e
+  | _ =>
+    match stepKeys x with
+    | some r => r
+    | none =>
+      match stepManifest x with
+      | some r => r
+      | none => .atom "bad-op"
+
+end C18Drv
+
+def main : IO Unit := driverLoop C18Drv.step
